@@ -202,6 +202,20 @@ def run(ctx, n_override=None):
                 lots.append(x_)
             text = X.render_journal(lots)
             tag = 'lots'
+        elif r < 0.91:
+            # transactions whose balance holds three or more commodity entries, some cancelling exactly, no elided amount and
+            # no cost: whether (and how) a conversion rate is implied must not depend on where the commodities sit in memory
+            xs_ = []
+            for _ in range(rng.randrange(3, 8)):
+                x_ = X.gen_implied_rate_with_cancel(rng) if rng.random() < 0.7 else X.gen_implied_rate_with_virtual(rng)
+                if rng.random() < 0.4:
+                    extra = X.Amt.rand(rng, rng.choice(list(X.COMMS)))
+                    x_.posts += [X.Post('Assets:Bank', 'R', extra), X.Post('Liabilities:Card', 'R', extra.neg())]
+                    rng.shuffle(x_.posts)
+                x_.date = '2020/%02d/%02d' % (rng.randrange(1, 13), rng.randrange(1, 29))
+                xs_.append(x_)
+            text = X.render_journal(xs_)
+            tag = 'rate'
         else:
             base = X.render_journal(c01.gen_journal(rng)) if rng.random() < 0.6 else X.render_journal(c09.gen_history(rng)[0])
             text = mutate(rng, base)
@@ -212,6 +226,8 @@ def run(ctx, n_override=None):
         cmd = list(rng.choice(COMMANDS))
         if tag.endswith('+dates') and rng.random() < 0.5:
             cmd = list(rng.choice([['xml'], ['csv'], ['emacs'], ['print'], ['reg', '--aux-date'], ['xml', '--aux-date'], ['print', '--raw']]))
+        if tag == 'rate':
+            cmd = list(rng.choice([['bal'], ['reg'], ['bal', '-B'], ['reg', '-B'], ['print'], ['prices'], ['bal', '--lots']]))
         if tag == 'lots':
             cmd = list(rng.choice([['bal', '--lots'], ['reg', '--lots'], ['bal', '--lots', '--flat'], ['bal', '--lot-notes'], ['print'], ['xml'], ['bal', '--lots', '-B']]))
         if tag == 'c20' and rng.random() < 0.5:
